@@ -1,15 +1,15 @@
 #!/bin/bash
 # usage: tools-mutmatrix.sh [name-glob]   runs each seeded mutation against its property's check (quick) in a scratch worktree
 export GOFLAGS=-mod=mod GOPROXY=off
-wt=/tmp/sv/wt; mkdir -p /tmp/sv /tmp/sv/ev
+wt=${WT:-/tmp/sv/wt}; mkdir -p /tmp/sv
 [ -d $wt ] || git -C /repo worktree add --detach $wt HEAD >/dev/null 2>&1
 for d in /verif/seeded/${1:-*}/; do
   name=$(basename $d); id=${name%%-*}
   git -C $wt checkout -q --detach main; git -C $wt checkout -q -- .; git -C $wt clean -fdq
   if ! git -C $wt apply $d/patch.diff 2>/dev/null; then echo "$name: patch does not apply"; continue; fi
-  rm -rf /tmp/sv/ev/*
+  EV=$(mktemp -d /tmp/sv/ev.XXXXXX)
   t0=$(date +%s)
-  out=$(VERIF_EVDIR=/tmp/sv/ev VERIF_REPO=$wt VERIF_SEED=${SEED:-1} /verif/run.sh $id quick 2>&1); rc=$?
+  out=$(VERIF_EVDIR=$EV VERIF_REPO=$wt VERIF_SEED=${SEED:-1} /verif/run.sh $id quick 2>&1); rc=$?
   t1=$(date +%s)
   nv=$(echo "$out" | grep -c "^VIOLATION")
   mons=$(echo "$out" | grep -o "monitor=[a-zA-Z0-9_:-]*" | sort | uniq -c | sort -rn | head -4 | awk '{printf "%s(%s) ", $2, $1}')
